@@ -121,46 +121,33 @@ Proof.
   destruct (tv_step S C b rest Hok HC Hlen E) as (Hb & HC' & HwC & Hrest & Hlrest).
   cbv zeta. rewrite HwC.
   unfold c_lastByte, c_sevenTimesNine, c_significantBits.
-  (* the two terminal-byte tests, analysed independently *)
-  destruct (N.ltb_spec b 128) as [Hm|Hm].
-  - (* model: terminal byte *)
-    match goal with
-    | |- context [if (?l <? ?r) then _ else g_memUvarintReader_ReadUvarint_loop _ _ _ _ _] =>
-        destruct (N.ltb_spec l r) as [Hg|Hg]; [|exfalso; lia]
-    | |- context [if (?l <=? ?r) then _ else g_memUvarintReader_ReadUvarint_loop _ _ _ _ _] =>
-        destruct (N.leb_spec l r) as [Hg|Hg]; [|exfalso; lia]
+  (* every branch condition of either side is case-analysed on its own; the
+     combinations in which the two sides disagree must be contradictory *)
+  repeat match goal with
+    | |- context [if ?c then _ else _] => let H := fresh "Hc" in destruct c eqn:H
+    end; try (exfalso; lia).
+  all: lazymatch goal with
+    | |- Err = Err => reflexivity
+    | |- exists _, Ok _ = Ok _ /\ _ =>
+        (* terminal byte, no overflow *)
+        exists (C + 1); split; [|split; [lia|split; [lia|exact Hrest]]];
+        rewrite (tv_wrap64_small (N.lor x _));
+          [reflexivity | apply tv_lor_lt; [exact Hx | apply tv_wrap64_lt]]
+    | |- _ => idtac
     end.
-    (* the two overflow tests *)
-    match goal with
-    | |- match (if ?cm then _ else _) with _ => _ end =>
-        match goal with
-        | |- context [if ?cg then Err else _] =>
-            assert (Hc : cg = cm) by lia; rewrite Hc; clear Hc; destruct cm
-        end
-    end.
-    + reflexivity.
-    + exists (C + 1). split; [|split; [lia|split; [lia|exact Hrest]]].
-      rewrite (tv_wrap64_small (N.lor x _)); [reflexivity|].
-      apply tv_lor_lt; [exact Hx | apply tv_wrap64_lt].
-  - (* model: continuation byte *)
-    match goal with
-    | |- context [if (?l <? ?r) then _ else g_memUvarintReader_ReadUvarint_loop _ _ _ _ _] =>
-        destruct (N.ltb_spec l r) as [Hg|Hg]; [exfalso; lia|]
-    | |- context [if (?l <=? ?r) then _ else g_memUvarintReader_ReadUvarint_loop _ _ _ _ _] =>
-        destruct (N.leb_spec l r) as [Hg|Hg]; [exfalso; lia|]
-    end.
-    assert (Hx' : N.lor x (wrap64 (N.shiftl (N.land b 127) s)) < two64)
-      by (apply tv_lor_lt; [exact Hx | apply tv_wrap64_lt]).
-    rewrite (tv_wrap64_small (N.lor x _)) by exact Hx'.
-    rewrite (tv_wrap64_small (s + 7)) by lia.
-    specialize (IH (C + 1) (N.lor x (wrap64 (N.shiftl (N.land b 127) s))) (s + 7)).
-    rewrite Hrest in IH.
-    assert (HIH := IH ltac:(lia) Hx' ltac:(lia) ltac:(lia)). clear IH.
-    destruct (read_uvarint_aux rest (s + 7) _) as [[[v|] rest']|] in HIH |- *.
-    + destruct HIH as (C' & Hrun & H1 & H2 & H3).
-      exists C'. split; [exact Hrun|]. split; [lia|]. split; assumption.
-    + exact HIH.
-    + exact HIH.
+  (* continuation byte *)
+  assert (Hx' : N.lor x (wrap64 (N.shiftl (N.land b 127) s)) < two64)
+    by (apply tv_lor_lt; [exact Hx | apply tv_wrap64_lt]).
+  rewrite (tv_wrap64_small (N.lor x _)) by exact Hx'.
+  rewrite (tv_wrap64_small (s + 7)) by lia.
+  specialize (IH (C + 1) (N.lor x (wrap64 (N.shiftl (N.land b 127) s))) (s + 7)).
+  rewrite Hrest in IH.
+  assert (HIH := IH ltac:(lia) Hx' ltac:(lia) ltac:(unfold lenN in *; lia)). clear IH.
+  destruct (read_uvarint_aux rest (s + 7) _) as [[[v|] rest']|] in HIH |- *.
+  - destruct HIH as (C' & Hrun & H1 & H2 & H3).
+    exists C'. split; [exact Hrun|]. split; [lia|]. split; assumption.
+  - exact HIH.
+  - exact HIH.
 Qed.
 
 Theorem tie_ReadUvarint (S : list N) (C : N) :
@@ -205,26 +192,20 @@ Proof.
   destruct (tv_step S C b rest Hok HC Hlen E) as (Hb & HC' & HwC & Hrest & Hlrest).
   cbv zeta. rewrite HwC.
   unfold c_lastByte.
-  destruct (N.ltb_spec b 128) as [Hm|Hm].
-  - match goal with
-    | |- context [if (?l <? ?r) then _ else g_memUvarintReader_SkipUvarint_loop _ _ _] =>
-        destruct (N.ltb_spec l r) as [Hg|Hg]; [|exfalso; lia]
-    | |- context [if (?l <=? ?r) then _ else g_memUvarintReader_SkipUvarint_loop _ _ _] =>
-        destruct (N.leb_spec l r) as [Hg|Hg]; [|exfalso; lia]
+  repeat match goal with
+    | |- context [if ?c then _ else _] => let H := fresh "Hc" in destruct c eqn:H
+    end; try (exfalso; lia).
+  all: lazymatch goal with
+    | |- exists _, Ok _ = Ok _ /\ _ =>
+        exists (C + 1); split; [reflexivity|]; split; [lia|]; split; [lia|exact Hrest]
+    | |- _ => idtac
     end.
-    exists (C + 1). split; [reflexivity|]. split; [lia|]. split; [lia|exact Hrest].
-  - match goal with
-    | |- context [if (?l <? ?r) then _ else g_memUvarintReader_SkipUvarint_loop _ _ _] =>
-        destruct (N.ltb_spec l r) as [Hg|Hg]; [exfalso; lia|]
-    | |- context [if (?l <=? ?r) then _ else g_memUvarintReader_SkipUvarint_loop _ _ _] =>
-        destruct (N.leb_spec l r) as [Hg|Hg]; [exfalso; lia|]
-    end.
-    specialize (IH (C + 1)). rewrite Hrest in IH.
-    assert (HIH := IH ltac:(lia) ltac:(lia)). clear IH.
-    destruct (skip_uvarint rest) as [rest'|].
-    + destruct HIH as (C' & Hrun & H1 & H2 & H3).
-      exists C'. split; [exact Hrun|]. split; [lia|]. split; assumption.
-    + exact HIH.
+  specialize (IH (C + 1)). rewrite Hrest in IH.
+  assert (HIH := IH ltac:(lia) ltac:(unfold lenN in *; lia)). clear IH.
+  destruct (skip_uvarint rest) as [rest'|].
+  - destruct HIH as (C' & Hrun & H1 & H2 & H3).
+    exists C'. split; [exact Hrun|]. split; [lia|]. split; assumption.
+  - exact HIH.
 Qed.
 
 (* SkipUvarint only moves the cursor, so the cursor bound alone suffices *)
